@@ -15,4 +15,6 @@ def median (j : Json) : R Json := do
   let l ← fls (← field j "col")
   pure (Json.mkObj [("median", jf (HierArc.Blind.median l))])
 
+def ops : List (String × (Json → R Json)) := [("C17.blind", blind), ("C17.median", median)]
+
 end HierArc.Drv.C17
